@@ -209,6 +209,8 @@ def _render_task(spec, t, ind: str, kid: bool) -> list[str]:
         for i, n in enumerate(t["prods"]):
             params.append(f"p{i}: Annotated[Path, Product] = D / 'n{n}.txt'")
             prod_names.append(f"p{i}")
+    if t.get("persist"):
+        L.append(f"{ind}@pytask.mark.persist")
     deco = []
     if kid:
         deco.append(f"name={tname(t['id'])!r}")
@@ -243,6 +245,7 @@ def render_module(spec, src_value=None) -> str:
         "from __future__ import annotations",
         "from pathlib import Path",
         "from typing import Annotated",
+        "import pytask",
         "from pytask import DirectoryNode, Product, task",
         "import _verif_prt as rt",
         "D = Path(__file__).resolve().parent / 'data'",
@@ -389,8 +392,8 @@ def replay_in_model(drv, hist, records):
         if step[0] == "build":
             obs = rec["obs"]
             picks = derive_picks(obs)
-            if obs.get("raised") or obs.get("died") or any(p is None for p in picks):
-                out.append((i, "build() raised or unknown task names", obs.get("raised") or obs.get("reports"), None))
+            if obs.get("raised") or obs.get("died") or obs.get("timeout") or any(p is None for p in picks):
+                out.append((i, "build() raised, did not terminate, or unknown task names", obs.get("raised") or ("timeout" if obs.get("timeout") else obs.get("reports")), None))
                 break
             ans = drv.ask(f"prov.build picks={','.join(map(str, picks))}")
             if not ans.startswith("ok "):
@@ -436,6 +439,77 @@ def replay_in_model(drv, hist, records):
 # running a history on the real code
 # ------------------------------------------------------------------------------------------------
 
+BUILD_TIMEOUT = 30.0     # a build of these projects takes well under a second; a build that never ends is an observation
+
+
+class TimedServer(builder.BuildServer):
+    """BuildServer whose builds have a deadline: a build that does not terminate (e.g. tasks handed out again and again)
+    is reported as {"timeout": True}; the server (own process group, with the forked build) is killed and restarted."""
+
+    def __init__(self, hashseed: int):
+        self.hashseed = hashseed
+        self.lock = __import__("threading").Lock()
+        self._start()
+
+    def _start(self):
+        import os
+        import subprocess
+        env = dict(os.environ, PYTHONHASHSEED=str(self.hashseed), PYTHONDONTWRITEBYTECODE="1")
+        self.p = subprocess.Popen([common.PY, str(builder.SERVER)], stdin=subprocess.PIPE, stdout=subprocess.PIPE, text=True,
+                                  env=env, cwd="/", start_new_session=True)
+
+    def build(self, root, kw=None, env=None, **opts):
+        import json
+        import os
+        import select
+        import signal
+        job = {"root": str(root), "kw": kw or {}, "env": env or {}}
+        job.update(opts)
+        with self.lock:
+            self.p.stdin.write(json.dumps(job) + "\n")
+            self.p.stdin.flush()
+            ready, _, _ = select.select([self.p.stdout], [], [], BUILD_TIMEOUT)
+            if not ready:
+                try:
+                    os.killpg(self.p.pid, signal.SIGKILL)
+                except OSError:
+                    pass
+                self.p.wait()
+                self._start()
+                return {"timeout": True, "reports": [], "exit": None, "collected": []}
+            line = self.p.stdout.readline()
+        if not line:
+            raise common.InfraError("build server died")
+        res = json.loads(line)
+        if "harness_error" in res:
+            raise common.InfraError("build child harness error: " + res["harness_error"])
+        return res
+
+    def close(self):
+        import os
+        import signal
+        try:
+            self.p.stdin.close()
+            self.p.wait(timeout=10)
+        except Exception:
+            try:
+                os.killpg(self.p.pid, signal.SIGKILL)
+            except OSError:
+                pass
+
+
+class TimedPool:
+    def __init__(self, hashseeds):
+        self.servers = [TimedServer(h) for h in hashseeds]
+
+    def pick(self, i):
+        return self.servers[i % len(self.servers)]
+
+    def close(self):
+        for s in self.servers:
+            s.close()
+
+
 def run_history(server, hist, keep=False):
     root = common.scratch_dir("prov")
     clock = project.Clock()
@@ -452,6 +526,9 @@ def run_history(server, hist, keep=False):
                 obs = server.build(root, {})
                 obs["log"] = read_log(root)
                 rec.update({"obs": obs, "pre": pre, "post": snapshot(root, spec), "hashseed": server.hashseed})
+                if obs.get("timeout"):
+                    records.append(rec)
+                    break
             elif kind == "write":
                 project.write_file(npath(root, step[1]), str(step[2]), clock)
             elif kind == "touch":
